@@ -112,7 +112,16 @@ def expected(chain):
 # ----------------------------------------------------------------------------------------
 NUM_SPELLINGS = ['1', '+1', '-1', '0', '0.5', '-0.25', '1e-1', '2', '+0.75', '12', '1.50', '-3e0', '.5']
 FREE_KEYS = ['mass', 'r', 'p', 'foo', 'k1', 'label', 'site', 't', 'zz', 'Res', 'S1', 'Rg']
-FREE_VALUES = ['abc', 's', 'l', '72', 'X1', 'a_b', '0.5', 'R', 'up', 'a-b', 'v+']
+FREE_VALUES = ['abc', 's', 'l', '72', 'X1', 'a_b', '0.5', 'R', 'up', 'a-b', 'v+', 'head group']
+# free keys that merely look like reserved ones (they contain a reserved symbol or end in a verbose name)
+LOOKALIKE_KEYS = ['molweight', 'surfacecharge', 'qq', 'wx', 'xw', 'y', 'z', 'nchiral']
+
+
+def free_keys(reserved):
+    """free keys for a level: a symbol that is reserved only at the OTHER level is an ordinary free key"""
+    syms = {s for s, _, _ in reserved}
+    other = [k for k in ('q', 'x') if k not in syms]
+    return FREE_KEYS + LOOKALIKE_KEYS + other + other
 
 
 def gen_annotation(R, reserved, p_any=1.0, max_free=2):
@@ -124,7 +133,7 @@ def gen_annotation(R, reserved, p_any=1.0, max_free=2):
     # which reserved keys are given
     use = [r for r in reserved if R.chance(0.6)]
     nfree = R.randint(0, max_free)
-    free = R.sample(FREE_KEYS, nfree)
+    free = R.sample(sorted(set(free_keys(reserved))), nfree)
     if not use and not free:
         use = [R.choice(reserved)]
     vals = {}
